@@ -19,8 +19,10 @@ class Server:
         env = dict(os.environ)
         if env_extra:
             env.update(env_extra)
+        import tempfile
+        self.errf = tempfile.TemporaryFile(dir=os.path.join(VERIF, 'work') if os.path.isdir(os.path.join(VERIF, 'work')) else None)
         self.p = subprocess.Popen([LS_BIN, '--stdio', '-k', str(lookahead)], stdin=subprocess.PIPE, stdout=subprocess.PIPE,
-                                  stderr=subprocess.DEVNULL, env=env)
+                                  stderr=self.errf, env=env)
         self.q = queue.Queue()
         self.next_id = 1
         self.notifications = []
@@ -94,6 +96,19 @@ class Server:
                 self._send({'jsonrpc': '2.0', 'id': m['id'], 'result': None})
             elif 'method' in m:
                 self.notifications.append(m)
+
+    def panic_site(self):
+        """'file:line' of the last panic message on the server's stderr ('' if none)."""
+        try:
+            self.errf.seek(0)
+            data = self.errf.read().decode('utf-8', 'replace')
+        except Exception:
+            return ''
+        import re
+        m = re.findall(r"thread 'main'[^\n]*panicked at ([^\s:]+:\d+):\d+:\n([^\n]*)", data)
+        if not m:
+            return ''
+        return m[-1][0].split('/')[-1] + ' ' + m[-1][1][:80]
 
     def alive(self):
         return self.p.poll() is None
